@@ -37,9 +37,9 @@ type engineImpl struct {
 	bg        *bgOp  // Export / snapshot running in a second goroutine
 	bgResult  string // result of a background op that finished while an application op ran
 	hooked    *litefs.DB
-	exitSnap  string           // copy of the data directory taken when Store.Exit was called
-	held      *litefs.GuardSet // internal write lock held by the `whold` op
-	abandoned []abandonedStore // stores of "dead" processes (crash restarts)
+	exitSnap  string                       // copy of the data directory taken when Store.Exit was called
+	held      *litefs.GuardSet             // internal write lock held by the `whold` op
+	abandoned []abandonedStore             // stores of "dead" processes (crash restarts)
 	configure func(st *litefs.Store) error // cluster nodes: own leaser / client / HTTP server
 
 	// crash window
